@@ -103,33 +103,32 @@ Fixpoint dec_binders (fuel : nat) (s : bytes) : option (list bytes) :=
 Definition nonempty_u16s (d : bytes) : option (list N * bytes) :=     (* `ReadUint16LengthPrefixed(&l) || l.Empty()` + loop *)
   let? (l, r) := rd_u16lp d in if is_nil l then None else let? xs := rd_u16s l in Some (xs, r).
 
+(* the switch (:505-703) as a chain of comparisons, in the order of the Go cases *)
 Definition dec_body (id : N) (d : bytes) : option (ext * bytes) :=
-  match id with
-  | 0 => let? (nl, r) := rd_u16lp d in if is_nil nl then None else
-         let? n := dec_sni_names (length nl) nl [] in Some (XSni n, r)
-  | 5 => let? (ty, r) := rd_u8 d in let? (_, r) := rd_u16lp r in let? (_, r) := rd_u16lp r in Some (XStatus (ty =? 1), r)
-  | 10 => let? (xs, r) := nonempty_u16s d in Some (XCurves xs, r)
-  | 11 => let? (p, r) := rd_u8lp d in if is_nil p then None else Some (XPoints p, r)
-  | 35 => Some (XTicket d, [])                                         (* :564 ReadBytes(len(extData)) *)
-  | 13 => let? (xs, r) := nonempty_u16s d in Some (XSigAlgs xs, r)
-  | 50 => let? (xs, r) := nonempty_u16s d in Some (XSigAlgsCert xs, r)
-  | 65281 => let? (x, r) := rd_u8lp d in Some (XReneg x, r)
-  | 23 => Some (XEms, d)
-  | 16 => let? (pl, r) := rd_u16lp d in if is_nil pl then None else let? l := dec_alpn (length pl) pl in Some (XAlpn l, r)
-  | 18 => Some (XSct, d)
-  | 43 => let? (vl, r) := rd_u8lp d in if is_nil vl then None else let? xs := rd_u16s vl in Some (XVersions xs, r)
-  | 44 => let? (c, r) := rd_u16lp d in if is_nil c then None else Some (XCookie c, r)
-  | 51 => let? (cs, r) := rd_u16lp d in let? l := dec_shares (length cs) cs in Some (XKeyShares l, r)
-  | 42 => Some (XEarly, d)
-  | 45 => let? (x, r) := rd_u8lp d in Some (XPskModes x, r)
-  | 57 => Some (XQuic d, [])                                           (* :662 CopyBytes *)
-  | 41 => let? (il, r) := rd_u16lp d in if is_nil il then None else
-          let? ids := dec_ids (length il) il in
-          let? (bl, r) := rd_u16lp r in if is_nil bl then None else
-          let? bs := dec_binders (length bl) bl in Some (XPsk ids bs, r)
-  | 65037 => Some (XEch d, [])                                         (* :697 ReadBytes(len(extData)) *)
-  | _ => Some (XUnknown id, [])                                        (* default: continue (no trailing check) *)
-  end.
+  if id =? 0 then (let? (nl, r) := rd_u16lp d in if is_nil nl then None else
+                   let? n := dec_sni_names (length nl) nl [] in Some (XSni n, r))
+  else if id =? 5 then (let? (ty, r) := rd_u8 d in let? (_, r) := rd_u16lp r in let? (_, r) := rd_u16lp r in Some (XStatus (ty =? 1), r))
+  else if id =? 10 then (let? (xs, r) := nonempty_u16s d in Some (XCurves xs, r))
+  else if id =? 11 then (let? (p, r) := rd_u8lp d in if is_nil p then None else Some (XPoints p, r))
+  else if id =? 35 then Some (XTicket d, [])                            (* :564 ReadBytes(len(extData)) *)
+  else if id =? 13 then (let? (xs, r) := nonempty_u16s d in Some (XSigAlgs xs, r))
+  else if id =? 50 then (let? (xs, r) := nonempty_u16s d in Some (XSigAlgsCert xs, r))
+  else if id =? 65281 then (let? (x, r) := rd_u8lp d in Some (XReneg x, r))
+  else if id =? 23 then Some (XEms, d)
+  else if id =? 16 then (let? (pl, r) := rd_u16lp d in if is_nil pl then None else let? l := dec_alpn (length pl) pl in Some (XAlpn l, r))
+  else if id =? 18 then Some (XSct, d)
+  else if id =? 43 then (let? (vl, r) := rd_u8lp d in if is_nil vl then None else let? xs := rd_u16s vl in Some (XVersions xs, r))
+  else if id =? 44 then (let? (c, r) := rd_u16lp d in if is_nil c then None else Some (XCookie c, r))
+  else if id =? 51 then (let? (cs, r) := rd_u16lp d in let? l := dec_shares (length cs) cs in Some (XKeyShares l, r))
+  else if id =? 42 then Some (XEarly, d)
+  else if id =? 45 then (let? (x, r) := rd_u8lp d in Some (XPskModes x, r))
+  else if id =? 57 then Some (XQuic d, [])                              (* :662 CopyBytes *)
+  else if id =? 41 then (let? (il, r) := rd_u16lp d in if is_nil il then None else
+                         let? ids := dec_ids (length il) il in
+                         let? (bl, r) := rd_u16lp r in if is_nil bl then None else
+                         let? bs := dec_binders (length bl) bl in Some (XPsk ids bs, r))
+  else if id =? 65037 then Some (XEch d, [])                            (* :697 ReadBytes(len(extData)) *)
+  else Some (XUnknown id, []).                                          (* default: continue (no trailing check) *)
 Definition dec_ext (id : N) (d : bytes) : option ext :=
   let? (x, r) := dec_body id d in if is_nil r then Some x else None.   (* :705 !extData.Empty() *)
 
@@ -313,6 +312,19 @@ Definition wf_extb (x : ext) : bool :=
   | XKeyShares l => forallb share_okb l
   | XPsk ids bs => nonnilb ids && forallb id_okb ids && nonnilb bs && forallb nonnilb bs
   | XUnknown _ => false
+  | _ => true
+  end.
+(* what each decoder guarantees about its result (weaker than wf_extb: emptiness is allowed where the decoder allows it) *)
+Definition sni_pre (n : bytes) : bool := is_nil n || negb (last n 0 =? 46).
+Definition pre_wfb (x : ext) : bool :=
+  match x with
+  | XSni n => sni_pre n
+  | XCurves l | XSigAlgs l | XSigAlgsCert l | XVersions l => nonnilb l && forallb u16_okb l
+  | XPoints p => nonnilb p
+  | XCookie c => nonnilb c
+  | XAlpn l => nonnilb l && forallb nonnilb l
+  | XKeyShares l => forallb share_okb l
+  | XPsk ids bs => nonnilb ids && forallb id_okb ids && nonnilb bs && forallb nonnilb bs
   | _ => true
   end.
 Definition is_some_nil {A} (s : slice A) : bool := match s with Some [] => true | _ => false end.
